@@ -34,7 +34,12 @@ RULE = ("cases = (format, bytes) for the five formats newick | multi (multi-Newi
         "last position at any depth incl. the root, every order of up to two (thorough three) of {length, support, name, comment, "
         "second comment} after the outermost ')' x eight empty-child bodies, all orders of three after an empty last child, "
         "reordered/repeated suffixes after inner ')', double colons, comments in odd places, missing ';', trailing garbage, "
-        "unbalanced parentheses at the end; very large magnitude integers (2^31, 2^32, 2^62, 2^63-1, 2^63, 2^64, 10^9..10^30, "
+        "unbalanced parentheses at the end; text after the outermost ')' (kind anomaly:reopened: one or two extra ')' and then a "
+        "new closed or unclosed group, the defect fixed by bd702f3); every delivered tree is then used: Nodes, Edges, Tips, Newick, "
+        "PreOrder, PostOrder, the id-indexed NodeRootDistance, LTT, CutEdgesMaxLength, SortedTips, ReinitIndexes, and for trees of at "
+        "most 200 nodes ToDistanceMatrix and Quartets (observed, not judged: Quartets ends the whole process through "
+        "io.ExitWithMessage when a delivered tree has duplicate tip names, i.e. no tip index; it is therefore called only "
+        "after ReinitIndexes succeeded); very large magnitude integers (2^31, 2^32, 2^62, 2^63-1, 2^63, 2^64, 10^9..10^30, "
         "negative ones) at EVERY integer-valued position of each grammar (kind hugeint:<position>): Nexus DIMENSIONS NTAX= of "
         "the TAXA block, NTAX= and NCHAR= of the DATA/CHARACTERS block (before MATRIX, either block order), TRANSLATE indices, "
         "numeric tree names and labels, supports, lengths, numbers in comments; Newick lengths, supports, p-values, names; "
